@@ -98,12 +98,14 @@ package texttable
 
 //@ -- line structure (C03): ghost counters of the rule lines and of the content lines written by one render
 //@ ghost var ttRules Int
+//@ -- witness per column of the cell whose measured width the column has (-1: the header cell, r >= 0: row r)
+//@ ghost var ttWit (Array Int Int)
 //@ ghost var ttContent Int
 
 //@ func (*TextTable).RenderTo
 //@   tags C03,C04,C15,C17,C09,C14
 //@   requires t != nil && tbl(t.Table) && ttab(t).nColumns <= 1048576
-//@   assigns heap[tabular.propertyImpl.properties], new(tabular.valueProperty), ttab(t).ErrorContainer.errors_, elemscap(ttab(t).ErrorContainer.errors_), ghost cbErrN, ghost cbErrLog, ghost cbCallN, ghost cbCallSelf, ghost cbCallOwner, ghost stage, ghost fires, ghost stageR, ghost firesR, ghost stageT, ghost stageC, ghost Wn, ghost Wchunk, ghost Wfailed, ghost ttRules, ghost ttContent, new(int), new(string), new(align.Alignment), new(decoration.WidthString), new([]decoration.WidthString), new(decoration.emitter), new(tabular.Cell)
+//@   assigns heap[tabular.propertyImpl.properties], new(tabular.valueProperty), ttab(t).ErrorContainer.errors_, elemscap(ttab(t).ErrorContainer.errors_), ghost cbErrN, ghost cbErrLog, ghost cbCallN, ghost cbCallSelf, ghost cbCallOwner, ghost stage, ghost fires, ghost stageR, ghost firesR, ghost stageT, ghost stageC, ghost Wn, ghost Wchunk, ghost Wfailed, ghost ttRules, ghost ttContent, ghost ttWit, new(int), new(string), new(align.Alignment), new(decoration.WidthString), new([]decoration.WidthString), new(decoration.emitter), new(tabular.Cell)
 //@   requires [writer-ok] !Wfailed
 //@   call InvokeRenderCallbacks after assume alignsValid(ttab(t)) && measuredOK()
 //@   ensures [error-list-grows-only-by-callback-errors] cbErrN >= old(cbErrN) && len(ttab(t).ErrorContainer.errors_) == old(len(ttab(t).ErrorContainer.errors_)) + (cbErrN - old(cbErrN)) @C14,C11
@@ -115,17 +117,20 @@ package texttable
 //@   ensures [decoration-untouched] t.decor == old(t.decor) @C14
 //@   loop#1 invariant -1 <= rangeindex && rangeindex < columnCount && t != nil && tbl(t.Table) && alignsValid(ttab(t)) && measuredOK() && !Wfailed && columnCount == ttab(t).nColumns && columnCount <= 1048576 && len(columnWidths) == columnCount && fresh(columnWidths) && len(columnAligns) == columnCount && fresh(columnAligns) && (ttab(t).headerRow == nil ==> len(headers) == 0) && (ttab(t).headerRow != nil ==> headers === ttab(t).headerRow.cells) && widthsOK(columnWidths) && Wn == old(Wn)
 //@   loop#1 invariant forall i int :: {columnWidths[i]} 0 <= i && i <= rangeindex && i < len(headers) ==> cellW(&headers[i]) <= columnWidths[i]
+//@   loop#1 invariant [width-attained-by-a-cell] forall i int :: {columnWidths[i]} 0 <= i && i < columnCount ==> (columnWidths[i] == 0 || (ttWit[i] == -1 && ttab(t).headerRow != nil && i < len(headers) && columnWidths[i] == cellW(&headers[i])) || (0 <= ttWit[i] && ttWit[i] < len(ttab(t).rows) && !ttab(t).rows[ttWit[i]].isSeparator && i < len(ttab(t).rows[ttWit[i]].cells) && columnWidths[i] == cellW(&ttab(t).rows[ttWit[i]].cells[i])))
 //@   loop#1 assigns elems(columnWidths)
 //@   loop#1 decreases columnCount - rangeindex
 //@   loop#2 invariant -1 <= rangeindex && rangeindex < len(ttab(t).rows) && t != nil && tbl(t.Table) && alignsValid(ttab(t)) && measuredOK() && !Wfailed && columnCount == ttab(t).nColumns && columnCount <= 1048576 && len(columnWidths) == columnCount && fresh(columnWidths) && len(columnAligns) == columnCount && fresh(columnAligns) && (ttab(t).headerRow == nil ==> len(headers) == 0) && (ttab(t).headerRow != nil ==> headers === ttab(t).headerRow.cells) && widthsOK(columnWidths) && Wn == old(Wn)
 //@   loop#2 invariant [header-fits] forall i int :: {columnWidths[i]} 0 <= i && i < len(headers) && i < columnCount ==> cellW(&headers[i]) <= columnWidths[i]
 //@   loop#2 invariant [rows-so-far-fit] forall r int, i int :: {&ttab(t).rows[r].cells[i]} 0 <= r && r <= rangeindex && !ttab(t).rows[r].isSeparator && 0 <= i && i < len(ttab(t).rows[r].cells) ==> cellW(&ttab(t).rows[r].cells[i]) <= columnWidths[i]
+//@   loop#2 invariant [width-attained-by-a-cell] forall i int :: {columnWidths[i]} 0 <= i && i < columnCount ==> (columnWidths[i] == 0 || (ttWit[i] == -1 && ttab(t).headerRow != nil && i < len(headers) && columnWidths[i] == cellW(&headers[i])) || (0 <= ttWit[i] && ttWit[i] < len(ttab(t).rows) && !ttab(t).rows[ttWit[i]].isSeparator && i < len(ttab(t).rows[ttWit[i]].cells) && columnWidths[i] == cellW(&ttab(t).rows[ttWit[i]].cells[i])))
 //@   loop#2 assigns elems(columnWidths)
 //@   loop#2 decreases len(ttab(t).rows) - rangeindex
 //@   loop#3 invariant -1 <= rangeindex && rangeindex < len(row.cells) && -1 <= rangeindex2 && rangeindex2 + 1 < len(ttab(t).rows) && row == ttab(t).rows[rangeindex2 + 1] && !row.isSeparator && t != nil && tbl(t.Table) && alignsValid(ttab(t)) && measuredOK() && !Wfailed && columnCount == ttab(t).nColumns && columnCount <= 1048576 && len(columnWidths) == columnCount && fresh(columnWidths) && len(columnAligns) == columnCount && fresh(columnAligns) && (ttab(t).headerRow == nil ==> len(headers) == 0) && (ttab(t).headerRow != nil ==> headers === ttab(t).headerRow.cells) && widthsOK(columnWidths) && Wn == old(Wn)
 //@   loop#3 invariant [header-fits] forall i int :: {columnWidths[i]} 0 <= i && i < len(headers) && i < columnCount ==> cellW(&headers[i]) <= columnWidths[i]
 //@   loop#3 invariant [rows-so-far-fit] forall r int, i int :: {&ttab(t).rows[r].cells[i]} 0 <= r && r <= rangeindex2 && !ttab(t).rows[r].isSeparator && 0 <= i && i < len(ttab(t).rows[r].cells) ==> cellW(&ttab(t).rows[r].cells[i]) <= columnWidths[i]
 //@   loop#3 invariant [this-row-so-far-fits] forall i int :: {&row.cells[i]} 0 <= i && i <= rangeindex ==> cellW(&row.cells[i]) <= columnWidths[i]
+//@   loop#3 invariant [width-attained-by-a-cell] forall i int :: {columnWidths[i]} 0 <= i && i < columnCount ==> (columnWidths[i] == 0 || (ttWit[i] == -1 && ttab(t).headerRow != nil && i < len(headers) && columnWidths[i] == cellW(&headers[i])) || (0 <= ttWit[i] && ttWit[i] < len(ttab(t).rows) && !ttab(t).rows[ttWit[i]].isSeparator && i < len(ttab(t).rows[ttWit[i]].cells) && columnWidths[i] == cellW(&ttab(t).rows[ttWit[i]].cells[i])))
 //@   loop#3 assigns elems(columnWidths)
 //@   loop#3 decreases len(row.cells) - rangeindex
 //@   loop#4 invariant -1 <= rangeindex && rangeindex < columnCount && t != nil && tbl(t.Table) && alignsValid(ttab(t)) && measuredOK() && !Wfailed && columnCount == ttab(t).nColumns && columnCount <= 1048576 && len(columnWidths) == columnCount && fresh(columnWidths) && len(columnAligns) == columnCount && fresh(columnAligns) && (ttab(t).headerRow == nil ==> len(headers) == 0) && (ttab(t).headerRow != nil ==> headers === ttab(t).headerRow.cells) && widthsOK(columnWidths) && Wn == old(Wn)
@@ -134,8 +139,12 @@ package texttable
 //@   loop#4 invariant defaultAlignRaw == alignOf(ttab(t), 0)
 //@   loop#4 invariant [header-fits] forall i int :: {columnWidths[i]} 0 <= i && i < len(headers) && i < columnCount ==> cellW(&headers[i]) <= columnWidths[i]
 //@   loop#4 invariant [every-cell-fits] forall r int, i int :: {&ttab(t).rows[r].cells[i]} 0 <= r && r < len(ttab(t).rows) && !ttab(t).rows[r].isSeparator && 0 <= i && i < len(ttab(t).rows[r].cells) ==> cellW(&ttab(t).rows[r].cells[i]) <= columnWidths[i]
+//@   loop#4 invariant [width-attained-by-a-cell] forall i int :: {columnWidths[i]} 0 <= i && i < columnCount ==> (columnWidths[i] == 0 || (ttWit[i] == -1 && ttab(t).headerRow != nil && i < len(headers) && columnWidths[i] == cellW(&headers[i])) || (0 <= ttWit[i] && ttWit[i] < len(ttab(t).rows) && !ttab(t).rows[ttWit[i]].isSeparator && i < len(ttab(t).rows[ttWit[i]].cells) && columnWidths[i] == cellW(&ttab(t).rows[ttWit[i]].cells[i])))
 //@   loop#4 assigns elems(columnAligns)
 //@   loop#4 decreases columnCount - rangeindex
+//@   call CellPropertyExtractDimensions#1 after ghost ttWit = store(ttWit, i, -1)
+//@   call CellPropertyExtractDimensions#2 after ghost ttWit = (res0.cellWidth > columnWidths[i] ? store(ttWit, i, rangeindex2 + 1) : ttWit)
+//@   call ForColumnWidths before assert [column-no-wider-than-its-widest-cell] forall i int :: {columnWidths[i]} 0 <= i && i < columnCount ==> (columnWidths[i] == 0 || (ttWit[i] == -1 && ttab(t).headerRow != nil && i < len(headers) && columnWidths[i] == cellW(&headers[i])) || (0 <= ttWit[i] && ttWit[i] < len(ttab(t).rows) && !ttab(t).rows[ttWit[i]].isSeparator && i < len(ttab(t).rows[ttWit[i]].cells) && columnWidths[i] == cellW(&ttab(t).rows[ttWit[i]].cells[i]))) @C03
 //@   call ForColumnWidths before assert [column-fits-its-widest-cell] (forall i int :: {columnWidths[i]} 0 <= i && i < len(headers) && i < columnCount ==> cellW(&headers[i]) <= columnWidths[i]) && (forall r int, i int :: {&ttab(t).rows[r].cells[i]} 0 <= r && r < len(ttab(t).rows) && !ttab(t).rows[r].isSeparator && 0 <= i && i < len(ttab(t).rows[r].cells) ==> cellW(&ttab(t).rows[r].cells[i]) <= columnWidths[i]) @C03
 //@   call ForColumnWidths before assert [effective-alignment-own-else-column-0] forall i int :: {columnAligns[i]} 0 <= i && i < columnCount ==> columnAligns[i] == effAlign(ttab(t), i) @C04
 //@   call WriteString#1 after ghost ttRules = ttRules + 1
